@@ -13,7 +13,7 @@ CONSTANTS
   Pages = {1, 2}
   SSizes = {1, 2}
   Filts = {"client", "server"}
-  Ops = {"pub", "rem", "exp", "sexp", "clear", "refresh"}
+  Ops = {"pub", "rem", "exp", "sexp", "clear", "refresh", "poscheck"}
   Pres = {0, 1}
   N0s = {0, 1, 2}
   Contig = TRUE
